@@ -27,6 +27,7 @@ Inductive err :=
 | EArgs       (* ValueError: block pulse duration/bandwidth combination *)
 | EGradAmp    (* make_trapezoid: refined amplitude larger than max *)
 | ESlewUp | ESlewDown   (* make_trapezoid: refined slew rate larger than max *)
+| ETrapTimes  (* make_trapezoid: non-positive ramp time or negative flat time (only if the source has that check) *)
 | EEnvLen.    (* model only: the envelope handed to the model does not have n_samples entries *)
 
 Inductive res (A : Type) := Ok (a : A) | Err (e : err).
@@ -71,15 +72,22 @@ Fixpoint zrange (k : Z) (n : nat) : list Z :=
    local model of make_trapezoid (make_trapezoid.py), only the two argument sets the RF makers use.
    Both leave rise_time = fall_time = None on entry. *)
 
-(* make_trapezoid.py:228-257: limit checks and the returned event *)
+(* make_trapezoid.py, tail: limit checks, (if present in the source) the timing check, and the returned event *)
+(* `if -eps < flat_time < 0: flat_time = 0.0` *)
+Definition clamp_flat (flat : Q) : Q :=
+  if (trap_rejects_bad_times && Qltb (- rf_eps) flat && Qltb flat 0)%bool then 0 else flat.
+
 Definition trap_finish (max_grad max_slew amp rise flat fall : Q) : res trap :=
-  if Qltb (max_grad + rf_eps) (Qabs amp) then Err EGradAmp                          (* :228 *)
-  else if Qltb (max_slew * (1 + rf_eps)) (Qabs amp / rise) then Err ESlewUp         (* :231 *)
-  else if Qltb (max_slew * (1 + rf_eps)) (Qabs amp / fall) then Err ESlewDown       (* :236 *)
-  else Ok (mkTrap amp rise flat fall
-                  (amp * (flat + rise / 2 + fall / 2))                              (* :248 *)
-                  (amp * flat)                                                      (* :249 *)
-                  0).                                                               (* :250 delay=0 *)
+  if Qltb (max_grad + rf_eps) (Qabs amp) then Err EGradAmp
+  else if Qltb (max_slew * (1 + rf_eps)) (Qabs amp / rise) then Err ESlewUp
+  else if Qltb (max_slew * (1 + rf_eps)) (Qabs amp / fall) then Err ESlewDown
+  else
+    let flat' := clamp_flat flat in
+    if (trap_rejects_bad_times && (Qleb rise 0 || Qleb fall 0 || Qltb flat' 0))%bool then Err ETrapTimes
+    else Ok (mkTrap amp rise flat' fall
+                    (amp * (flat' + rise / 2 + fall / 2))       (* grad.area *)
+                    (amp * flat')                               (* grad.flat_area *)
+                    0).                                         (* delay=0 *)
 
 (* make_trapezoid.py:39 calculate_shortest_rise_time *)
 Definition shortest_rise (amp max_slew raster : Q) : Q :=
